@@ -602,6 +602,10 @@ pub struct KWriteA;
 pub struct KReadC;
 pub struct KWriteC;
 pub struct KReadAWriteC;
+pub struct KOptReadA;
+impl CtrlKind for KOptReadA {
+    type Data<'c> = Option<Read<'c, Cell0>>;
+}
 
 impl CtrlKind for KUnit {
     type Data<'c> = ();
